@@ -49,7 +49,7 @@ def one_dump(ctx, rng, idx, pending):
     filehash = rng.random() < 0.3
     pretty = rng.random() < 0.5
     counters = {}
-    style = rng.choice(['default', 'renamed', 'dotted', 'disabled-some'])
+    style = rng.choice(['default', 'renamed', 'dotted', 'disabled-some', 'disabled-subset'])
     if style == 'renamed':
         counters = {'datapackage-rowcount': 'rows', 'datapackage-bytes': 'size', 'datapackage-hash': 'md5',
                     'resource-rowcount': 'rows', 'resource-bytes': 'size', 'resource-hash': 'md5'}
@@ -60,6 +60,14 @@ def one_dump(ctx, rng, idx, pending):
         counters = {'datapackage-rowcount': None, 'resource-bytes': None}
         if not filehash:
             counters['resource-hash'] = rng.choice([None, 'hash'])
+    elif style == 'disabled-subset':
+        # every subset of the six counters in turn (a counter that is switched off must not change what the others record:
+        # e.g. the hash is taken of the whole file whether or not its size is asked for)
+        keys = ['datapackage-rowcount', 'datapackage-bytes', 'datapackage-hash', 'resource-rowcount', 'resource-bytes', 'resource-hash']
+        mask = [0b010010, 0b010011, 0b110010, 0b011011, 0b000010, 0b010000, 0b111111][idx % 7] if rng.random() < 0.6 else rng.randrange(64)
+        counters = {k: None for i, k in enumerate(keys) if mask >> i & 1}
+        if filehash:
+            counters.pop('resource-hash', None)
     names = {
         'pkg_rows': counters.get('datapackage-rowcount', 'count_of_rows'), 'pkg_bytes': counters.get('datapackage-bytes', 'bytes'),
         'pkg_hash': counters.get('datapackage-hash', 'hash'), 'res_rows': counters.get('resource-rowcount', 'count_of_rows'),
